@@ -41,7 +41,15 @@ pub enum Resp {
 #[derive(Clone, Debug, Serialize, Deserialize, PartialEq, Eq)]
 pub enum Op {
     /// send request `idx` (payload embeds idx); dial-on-demand or not; payload size class
-    Send { idx: u8, dial: bool, size: usize, try_send: bool },
+    Send {
+        idx: u8,
+        dial: bool,
+        size: usize,
+        try_send: bool,
+        /// use the `*_with_fallback` flavour of the call (a fallback protocol name the responder does not know)
+        #[serde(default)]
+        with_fallback: bool,
+    },
     Cancel { idx: u8 },
     CutLink,
     /// environment fault: the requester's new outbound substreams are slow to open (held back) / released
@@ -77,7 +85,7 @@ enum ALog {
 }
 
 enum ACmd {
-    Send { idx: u8, dial: bool, size: usize, try_send: bool },
+    Send { idx: u8, dial: bool, size: usize, try_send: bool, with_fallback: bool },
     Cancel { idx: u8 },
     /// stop / resume reading the handle's events (a user that is busy elsewhere)
     Stall(bool),
@@ -142,12 +150,14 @@ fn spawn_requester(w: &mut World, node: usize, mut handle: RequestResponseHandle
                             l.lock().push(ALog::Sent { idx: 255, id: r.ok().map(|i| i.verif_raw()) });
                         }
                     }
-                    Some(ACmd::Send { idx, dial, size, try_send }) => {
+                    Some(ACmd::Send { idx, dial, size, try_send, with_fallback }) => {
                         let opt = if dial { DialOptions::Dial } else { DialOptions::Reject };
-                        let r = if try_send {
-                            handle.try_send_request(peer_b, payload(idx, size), opt)
-                        } else {
-                            handle.send_request(peer_b, payload(idx, size), opt).await
+                        let fb = || (ProtocolName::from("/verif/rr/0"), payload(idx, size));
+                        let r = match (try_send, with_fallback) {
+                            (true, false) => handle.try_send_request(peer_b, payload(idx, size), opt),
+                            (false, false) => handle.send_request(peer_b, payload(idx, size), opt).await,
+                            (true, true) => handle.try_send_request_with_fallback(peer_b, payload(idx, size), fb(), opt),
+                            (false, true) => handle.send_request_with_fallback(peer_b, payload(idx, size), fb(), opt).await,
                         };
                         let id = r.ok().map(|i| i.verif_raw());
                         if let Some(i) = id { ids.insert(idx, i); }
@@ -272,8 +282,8 @@ impl Scenario for RrScenario {
         match &self.program[st.pc] {
             Op::HoldOpens(hold) => w.nodes[st.node_a].script.set_hold_opens(*hold),
             Op::Wait(n) => st.wait = Some(*n),
-            Op::Send { idx, dial, size, try_send } => {
-                let _ = st.a_cmd.send(ACmd::Send { idx: *idx, dial: *dial, size: *size, try_send: *try_send });
+            Op::Send { idx, dial, size, try_send, with_fallback } => {
+                let _ = st.a_cmd.send(ACmd::Send { idx: *idx, dial: *dial, size: *size, try_send: *try_send, with_fallback: *with_fallback });
             }
             Op::Cancel { idx } => {
                 let _ = st.a_cmd.send(ACmd::Cancel { idx: *idx });
@@ -406,7 +416,7 @@ impl Scenario for RrScenario {
 
 pub fn scenarios(thorough: bool) -> Vec<RrScenario> {
     let mut v = Vec::new();
-    let send = |idx: u8, dial: bool| Op::Send { idx, dial, size: 3, try_send: false };
+    let send = |idx: u8, dial: bool| Op::Send { idx, dial, size: 3, try_send: false, with_fallback: false };
     for connected in [true, false] {
         for responder in [Resp::Answer, Resp::Reject, Resp::Stall] {
             // 1..3 requests
@@ -431,7 +441,17 @@ pub fn scenarios(thorough: bool) -> Vec<RrScenario> {
         // no dial allowed
         v.push(RrScenario { connected, program: vec![send(0, false), send(1, true)], responder: Resp::Answer, max_inbound: None, fail_first_dial: false, remote_refuses: false, bystander: false });
         // try_send
-        v.push(RrScenario { connected, program: vec![Op::Send { idx: 0, dial: true, size: 3, try_send: true }, Op::Send { idx: 1, dial: true, size: 3, try_send: true }], responder: Resp::Answer, max_inbound: None, fail_first_dial: false, remote_refuses: false, bystander: false });
+        v.push(RrScenario { connected, program: vec![Op::Send { idx: 0, dial: true, size: 3, try_send: true, with_fallback: false }, Op::Send { idx: 1, dial: true, size: 3, try_send: true, with_fallback: false }], responder: Resp::Answer, max_inbound: None, fail_first_dial: false, remote_refuses: false, bystander: false });
+    }
+    // the `*_with_fallback` flavour of the calls: answered, refused at once (not connected, no dial allowed), dial failing,
+    // and mixed with the plain flavour
+    for connected in [true, false] {
+        let fb = |idx: u8, dial: bool, try_send: bool| Op::Send { idx, dial, size: 3, try_send, with_fallback: true };
+        let mk = |program: Vec<Op>, fail_first_dial: bool| RrScenario { connected, program, responder: Resp::Answer, max_inbound: None, fail_first_dial, remote_refuses: false, bystander: false };
+        v.push(mk(vec![fb(0, true, false), send(1, true)], false));
+        v.push(mk(vec![fb(0, false, false), fb(1, true, true)], false));
+        v.push(mk(vec![fb(0, false, true), send(1, false), fb(2, true, false)], false));
+        v.push(mk(vec![fb(0, true, false), fb(1, true, true)], true));
     }
     // the remote refuses the connection right after it was negotiated
     for n in 1..=2u8 {
@@ -462,7 +482,7 @@ pub fn scenarios(thorough: bool) -> Vec<RrScenario> {
     v.push(RrScenario { connected: false, program: vec![send(0, true), Op::CutBystander], responder: Resp::Answer, max_inbound: None, fail_first_dial: false, remote_refuses: false, bystander: true });
     // payload sizes
     for size in [0usize, 1, MAX_SIZE, MAX_SIZE + 1] {
-        v.push(RrScenario { connected: true, program: vec![Op::Send { idx: 0, dial: true, size, try_send: false }, send(1, true)], responder: Resp::Answer, max_inbound: None, fail_first_dial: false, remote_refuses: false, bystander: false });
+        v.push(RrScenario { connected: true, program: vec![Op::Send { idx: 0, dial: true, size, try_send: false, with_fallback: false }, send(1, true)], responder: Resp::Answer, max_inbound: None, fail_first_dial: false, remote_refuses: false, bystander: false });
     }
     // inbound bound
     for responder in [Resp::Answer, Resp::Stall] {
@@ -482,7 +502,7 @@ fn connection_lost_while_the_users_event_channel_is_full(ctx: &mut Ctx) {
         let scn = RrScenario { connected: true, program: vec![], responder: Resp::Stall, max_inbound: None, fail_first_dial: false, remote_refuses: false, bystander: false };
         let mut w = World::new();
         let st = scn.setup(&mut w);
-        let _ = st.a_cmd.send(ACmd::Send { idx: 0, dial: true, size: 3, try_send: false });
+        let _ = st.a_cmd.send(ACmd::Send { idx: 0, dial: true, size: 3, try_send: false, with_fallback: false });
         w.run_to_quiescence(100_000);
         let _ = st.a_cmd.send(ACmd::Stall(true));
         let capacity = litep2p::verif::DEFAULT_CHANNEL_SIZE;
